@@ -8,13 +8,19 @@ checks = sys.argv[2:] or [pid]
 src = f"/tmp/wt_{pid}/seeded"
 dst = f"/verif/seeded/{pid}"
 os.makedirs(dst, exist_ok=True)
+keep = "--keep-patch" in sys.argv      # the patch under /verif/seeded/<ID>/ was rebased by hand onto later fix: commits
+checks = [c for c in checks if not c.startswith("--")] or [pid]
 for f in ("patch.diff", "demo.py", "meta.json"):
+    if f == "patch.diff" and keep and os.path.exists(os.path.join(dst, f)):
+        continue
     if os.path.exists(os.path.join(src, f)):
         shutil.copy(os.path.join(src, f), os.path.join(dst, f))
 # the demonstration must not depend on the worktree path
 demo = open(os.path.join(dst, "demo.py")).read().replace(f"/tmp/wt_{pid}", "${TREE}")
 open(os.path.join(dst, "demo.py"), "w").write(demo)
 meta = json.load(open(os.path.join(dst, "meta.json"))) if os.path.exists(os.path.join(dst, "meta.json")) else {"property": pid}
+if keep:
+    meta["patch_rebased"] = "patch.diff was rebased by hand onto the fix: commits made after the sub-agent's worktree was created; patch_as_produced.diff is the sub-agent's own"
 env0 = dict(os.environ, OMP_NUM_THREADS="2")
 
 
